@@ -520,7 +520,8 @@ def coq_case(mode, root):
     return "(%s, %s)" % ({"generate": "Generate", "reject": "Reject", "omit": "Omit"}[mode], C.coq_list([coq_obj(o) for o in post(root)]))
 
 
-FAULTS = ["unknown-property", "unknown-signal", "unknown-attached-property", "unknown-attached-type", "duplicate", "map-on-scalar", "callback-map"]
+FAULTS = ["unknown-property", "unknown-signal", "unknown-attached-property", "unknown-attached-type", "duplicate", "map-on-scalar", "callback-map",
+          "duplicate-attached", "callback-parameter", "callback-too-many", "ill-typed"]
 
 
 def plant_fault(rng, root):
@@ -541,6 +542,15 @@ def plant_fault(rng, root):
         o["faults"].append({"key": kind, "text": 'whatsThis: "b"' if o["kind"] != "layout" else "objectName: \"b\""})
     elif kind == "map-on-scalar":
         o["faults"].append({"key": kind, "text": "objectName { x: 1 }"})
+    elif kind == "duplicate-attached":
+        o["faults"].append({"key": "duplicate-first", "text": "QLayout.rowMinimumHeight: 1"})
+        o["faults"].append({"key": kind, "text": "QLayout.rowMinimumHeight: 2"})
+    elif kind == "callback-parameter":
+        o["faults"].append({"key": kind, "text": "onObjectNameChanged: function(x: int) { srcS.clear() }"})       # objectNameChanged(QString)
+    elif kind == "callback-too-many":
+        o["faults"].append({"key": kind, "text": "onObjectNameChanged: function(x: QString, y: int) { srcS.clear() }"})
+    elif kind == "ill-typed":
+        o["faults"].append({"key": kind, "text": "objectName: 1 + 2"})
     else:
         o["faults"].append({"key": kind, "text": "onObjectNameChanged { x: 1 }"})
     return o, kind
